@@ -67,6 +67,33 @@ CHECKS = {
              'included); random messages both ways; size limit via overridable _maxMsgLen (real 128 MiB in thorough).',
         design_ref='DESIGN.md section 3 (C03)',
         note='Trusts: TLC; constructed field order is not prescribed (judged by reference parser); names validity is C18.'),
+    'C05': dict(
+        technique='TLA+ spec Decoder.tla (step-counting reference decoder, generator machine over byte strings, Bounded '
+                  'invariant, ZeroOK deviation); implementation decodes under a call counter; TLC judges recorded work',
+        text='TLC decodes every byte string up to the bound over a small alphabet under hostile types (zero-size elements, '
+             'nested arrays, variants) and checks the linear step bound - and that the repaired defect (zero-size array '
+             'elements) violates it as a deviation; the implementation decodes the same inputs plus every truncation, bit '
+             'flip and length lie of a message corpus and grammar-directed hostile signatures under an interpreter call '
+             'counter with abort; the recorded work is judged against the linear bound by TLC.',
+        design_ref='DESIGN.md section 3 (C05)',
+        note='Trusts: call events as a proxy for work (<= 40 per abstract step + 400); any Python exception counts as rejection.'),
+    'C18': dict(
+        technique='TLA+ spec Validators.tla (grammar and automaton over character classes, generator machine); one '
+                  'implementation test per reachable string; random long strings judged by TLC',
+        text='Every string up to length 5 (6 thorough) over 9 character classes and the 253..258 length boundary is a '
+             'reachable state (TLC checks grammar = automaton); each is instantiated with rotating concrete characters and '
+             'given to the five validators and to every message-constructor slot; random long strings are judged by TLC.',
+        design_ref='DESIGN.md section 3 (C18)',
+        note='Trusts: validators depend on characters only through their class.'),
+    'C19': dict(
+        technique='TLA+ spec Signature.tla (grammar enumeration of signatures, value shapes, InferenceOK predicate); '
+                  'implementation outputs judged by TLC',
+        text='TLC enumerates every valid signature up to 7 (8) characters and cross-checks the decomposition with an '
+             'independent parser; the implementation must split each the same way (also through DBusInterface argument '
+             'counts); value shapes to depth 2 (3) and random deeper ones are built, and the inferred signature plus variant '
+             'round trip are judged by TLC: single complete type, wrapper exactness, fit and equality inside the claim.',
+        design_ref='DESIGN.md section 3 (C19)',
+        note='Trusts: TLC; signatures enumerated over basic codes y,s,v; NaN / NUL strings / mixed dict keys outside the claim.'),
 }
 
 NOT_YET = 'check not built yet (build in progress; see DESIGN.md section 6)'
